@@ -82,7 +82,7 @@ SPEC = {
         "core/state/statedb.go:StateDB.IntermediateRoot",
         "core/state/statedb.go:StateDB.Commit",
     ],
-    "level_text": "Coq theorems over all states, candidate transaction lists, evidence pools and admissible iteration orders, with transaction execution, signer resolution, the penalty and the period-end hook as arbitrary functions: (1) every Go map / sync.Map iteration inventoried by go/ast in core/state_processor.go, staking/*.go and core/state/*.go is either paired with a Gallina model of its loop body and a proof that the result is invariant under permutation of the iterated entries, or listed as off the execution path, and the regenerated inventory equals the classified set (a new map range breaks the bridge); rewardsToPool and distributeRewards as wholes are schedule-free; (2) evidence processing is independent of the signer cache; (3) processing a block is independent of iteration orders and cache contents for a fixed chain head; (4) every block the builder assembles is accepted with the builder's state and receipts by a node whose head is the parent, provided no evidence is penalised with a zero total; (5) the full statement is refuted in the model for the two remaining cases, which are reproduced on the real code (open findings). The model is tied to the code by running real chains: blocks built by the real miner worker (and by chain_makers) with the staking module, imported by BlockChain.InsertChain on a second node, re-executed on fresh state objects on a third and re-run in fresh processes; per-block observations are checked against the model inside Coq.",
+    "level_text": "Coq theorems over all states, candidate transaction lists, evidence pools and admissible iteration orders, with transaction execution, signer resolution, the penalty and the period-end hook as arbitrary functions: (1) every Go map / sync.Map iteration inventoried by go/ast in core/state_processor.go, staking/*.go and core/state/*.go is either paired with a Gallina model of its loop body and a proof that the result is invariant under permutation of the iterated entries, or listed as off the execution path, and the regenerated inventory equals the classified set (a new map range breaks the bridge); rewardsToPool and distributeRewards as wholes are schedule-free; (2) evidence processing is independent of the signer cache; (3) processing a block is independent of iteration orders and cache contents (the chain head is no input since fix ec9154c); (4) every block the builder assembles from any candidates and any evidence pool is accepted with the builder's state and receipts (unconditional since fixes e1d256e and ec9154c; the two former finding classes are regression cases in the corpus). The model is tied to the code by running real chains: blocks built by the real miner worker (and by chain_makers) with the staking module, imported by BlockChain.InsertChain on a second node, re-executed on fresh state objects on a third and re-run in fresh processes; per-block observations are checked against the model inside Coq.",
     "level_note": "Trusted: Coq kernel + vm_compute; the hand model's fidelity rests on the differential check (reach reported in evidence); the EVM, BLS verification, takePenalty and the period-end handlers are oracles (functions) in the theorems; tries are modelled as finite maps (canonicity of the root is C13's statement); which inventoried sites are off the execution path is a reviewed classification, not a call-graph proof; no axioms.",
     "harness": "c06",
     "hooks": ["miner/zz_verif_c06.go", "staking/zz_verif_c06.go"],
@@ -91,8 +91,8 @@ SPEC = {
     "properties_v": "C06/Properties.v",
     "obligations": [
         "C06_order_free", "C06_rewards_order_free", "C06_distribute_order_free", "C06_bridge", "C06_cache_free",
-        "C06_deterministic_holds_outside", "C06_builder_deterministic", "C06_builder_validator_holds_outside",
-        "C06_full_refuted", "C06_nonvacuous_rewards", "C06_nonvacuous_bridge", "C06_nonvacuous_agreement",
+        "C06_deterministic", "C06_builder_deterministic", "C06_builder_validator",
+        "C06_full_holds", "C06_nonvacuous_rewards", "C06_nonvacuous_bridge", "C06_nonvacuous_agreement",
     ],
     # -n counts BLOCKS executed on the implementation (each yields 1-3 model cases)
     "cases": {"quick": 450, "thorough": 6000},
@@ -115,7 +115,6 @@ SPEC = {
         "transaction execution (ApplyMessageEntry + Finalise), BLS signer resolution, doPenalize/takePenalty, apply of the reward outcome to the state and endStakingPeriod's handlers are functions of their arguments (section variables); their own determinism is the subject of C15/C16/C05/C07",
         "tries and Go maps are finite maps; roots, receipt hash and bloom are functions of the content (canonicity of the trie root: C13)",
         "Go map keys are distinct (NoDup hypotheses of the keyed sites); blobs are content-addressed (Commit site)",
-        "the importing node's head is the block's parent and no evidence is penalised with a zero total (both exclusions are open findings with witnesses)",
         "YouV5 parameters; uint64 wrap-around, the gas-pool break and the interrupt of commitTransactions (they only shorten the candidate list) are outside the model; time.Now in the worker is an input (the harness pins it through the parent time)",
         "logging.Crit / panics (division by zero in rewardsToPool when no role has an online validator, a coinbase that is not a validator) are modelled as Crash on both paths",
     ],
@@ -126,8 +125,5 @@ SPEC = {
         "state.StateDB.Finalise / IntermediateRoot / Commit / updateStakingTrie (map loops)", "state.stateObject.finalise / updateTrie (map loops)",
         "state.ValidatorIndex.List/EncodeRLP/DeepCopy/Empty, StateDB.GetValidators (sync.Map ranges)",
     ],
-    "partial": [
-        "C06_deterministic_holds_outside: for a fixed chain head only (finding: replaySlashing reads the chain head)",
-        "C06_builder_validator_holds_outside: head = parent and no zero-total penalty (finding: zero-amount penalty not put into slash data)",
-    ],
+    "partial": [],
 }
